@@ -20,3 +20,16 @@ n = len(rows); d = sum(1 for r in rows if r[3] == 'D'); s = sum(1 for r in rows 
 now = sum(1 for r in rows if r[4] != '—')
 print()
 print('%d confirmed seeds: %d caught on arrival by an existing rule (D), %d caught after strengthening (S), %d not caught (M); caught by the current checks: %d.' % (n, d, s, mm, now))
+
+# --- insert into DESIGN.md between the markers
+import io, re, sys
+if '--write' in sys.argv:
+    out = io.StringIO()
+    out.write('| seed | property | change | arrival | failing rules now | note |\n|---|---|---|---|---|---|\n')
+    for r in rows:
+        out.write('| %s | %s | %s | %s | %s | %s |\n' % r)
+    out.write('\n%d confirmed seeds: %d caught on arrival by an existing rule (D), %d caught after strengthening (S), %d not caught (M); reported by the current checks: %d.\n' % (n, d, s, mm, now))
+    p = '/verif/DESIGN.md'
+    t = open(p).read()
+    t = re.sub(r'<!-- SEEDTABLE-BEGIN -->.*<!-- SEEDTABLE-END -->', lambda m: '<!-- SEEDTABLE-BEGIN -->\n' + out.getvalue() + '<!-- SEEDTABLE-END -->', t, flags=re.S)
+    open(p, 'w').write(t)
